@@ -90,7 +90,7 @@ theorem C01_bytes_independent_of_schedule_and_override (cd : Codec α) (comp : O
   intro m _
   cases ovr <;> cases comp <;> simp [serverWire, Enc.newServer, flagByte, Framing.payload]
 
-/-- A request body has no opt-out: `EncodeBody::new_client` uses the configured encoding. -/
+/-- A request body has no opt-out: `EncodeBody::new_client` uses the configured encoding. (Transcription lemma: it holds by unfolding the model's definition, so it pins the model's shape for the correspondence run — its assurance about tonic is the tie, not this proof.) -/
 theorem C01_client_has_no_override (comp : Option Enc) (y b : Nat) (mx : Option Nat) :
     (Enc.newClient comp y b mx).comp = comp ∧ (Enc.newClient comp y b mx).server = false := ⟨rfl, rfl⟩
 
